@@ -191,8 +191,11 @@ def token_stream(prog, rng=None):
 _COMMENT_BODIES = [
     " comment ", "", " X q[0] ", " { ", " } | < ", " // nested line ", " * / ", " loop 2 { g } ", "*", " let a 1 ", "/",
     " multi\n line \n", "\n", " register q[9] ",
+    # characters that some line-splitting or character-class code treats specially; inside a comment they mean nothing
+    " page\x0cbreak X q[0] ", " vt\x0b ", " fs\x1c gs\x1d rs\x1e let a 2 ", " caf\u00e9 \u0663\uff12 ", " nel\x85 ls\u2028 X q[1] ",
 ]
-_LINE_BODIES = ["", " trailing", " X q[1]", " /* not a block", " */", " } ", "//", " ; | "]
+_LINE_BODIES = ["", " trailing", " X q[1]", " /* not a block", " */", " } ", "//", " ; | ",
+                " page\x0cX q[0]", " \x0b\x1c\x1d\x1e let zz 1", " \u0663 caf\u00e9", " \x85 X q[1] \u2028 X q[0]"]
 
 
 def to_text(prog, rng=None, comments=True):
